@@ -1,24 +1,275 @@
-import SMV.Model.Decl
+import SMV.Lemmas.DeclEngine
+import SMV.Lemmas.DeclEquiv
+import SMV.Lemmas.DeclAllowed
+import SMV.Lemmas.DeclStyles
+import SMV.Lemmas.DeclAny3
+/-!
+# C15 — every declaration style of the same machine yields the same machine
+
+Model: `SMV.Model.Decl` (class body evaluation `elabBody` + metaclass processing `elabMeta`,
+inheritance chains `elabProg`), linked to the engine model `SMV.Model.Engine` by `toMachine`.
+What is trusted: that the real classes elaborate like the store model — checked on every run by the
+correspondence harness (`harness/props/c15.py`: rendered Python source of random declaration
+programs vs `drv_decl`).
+
+`c₁ ≈ c₂` (`Decl.Equiv`): same states (id, value, flags, inline enter/exit), same event set, and for
+every state and event the same ordered list of candidates (target, internal, validators, guards,
+before/on/after). Theorems:
+
+* `C15_behaviour`        `≈` classes behave identically on every operation sequence, for every user
+                         code, valuation, option set and both processing modes (via
+                         `tryCands_filter`: the engine only looks at per-event candidate lists);
+* `C15_allowed`          … and allow the same events in every state;
+* `C15_rewrite_anywhere` the style rewrites that are equalities of elaboration — (a) `to`/`from_`,
+                         (b) multi-target/multi-source vs `|`, (c) `itself`, (d) spellings of
+                         `event=`, (g) `States({...})`/`States.from_enum` — may be applied in any
+                         context: under `|`, in any statement kind, between any statements, in any
+                         class of an inheritance chain;
+* `C15_any_partial`      (f) `e = t.from_.any(kw)` ≈ `e = t.from_(s₁,…,sₖ, kw)` after any class body;
+                         hypotheses exclude exactly the recorded shapes of finding D16, each of
+                         which has a proved negation witness below (`D16a … D16d`);
+* `C15_any_two`          renderings connected by any chain of these rewrites are `≈`, hence behave
+                         identically.
+
+Not proved in general (only machine-checked on the instances below, `*_instance`, and exercised by
+the correspondence): (d') one list assigned to two attributes vs `event="e1 e2"`; (e) `e = T` vs
+`Event(T)` vs placeholder `Event(name=…)` + `event=e` vs decorator; (h) base class + subclass vs
+one flat class; and (f) with further statements after the `any()` statement (needs an
+index-shifting simulation of the rest of the body).
+-/
 namespace SMV
+open SMV.Decl
 
-/-- the candidate loop only looks at transitions bound to the event -/
-theorem tryCands_filter (h : Nested) (m : Machine) (t : Trigger) (l : List Transn) :
-    tryCands h m t l = tryCands h m t (l.filter (matchesEv · t.event)) := by
-  induction l with
-  | nil => rfl
-  | cons tr rest ih =>
-    by_cases hm : matchesEv tr t.event = true
-    · simp only [List.filter_cons, hm, if_true]
-      unfold tryCands
-      simp only [hm, if_true]
-      congr 1
-      funext r
-      cases r with
-      | none => exact ih
-      | some v => rfl
-    · simp only [List.filter_cons, hm]
-      conv => lhs; unfold tryCands
-      simp only [hm]
-      exact ih
+@[inherit_doc] scoped infix:50 " ≈ " => Decl.Equiv
 
+/-! ## behaviour -/
+
+/-- **C15 (behaviour).** Equivalent classes are indistinguishable for the engine: every trigger, every
+`send`, every operation and every history gives the same result and the same configuration (model
+field, queue, log of callback invocations with what they saw), whatever the callbacks do (`env.behav`),
+whatever is truthy, with or without `allow_event_without_transition`, `start_value`, RTC or not. -/
+theorem C15_behaviour {c₁ c₂ : Cls} (E : c₁ ≈ c₂) (env : Env) :
+    (∀ (h : Nested) (t : Trigger), trigger h (toMachine env c₁) t = trigger h (toMachine env c₂) t) ∧
+    (∀ (o : Opts) (fuel : Nat) (op : Op),
+      stepOp (toMachine env c₁) o fuel op = stepOp (toMachine env c₂) o fuel op) ∧
+    (∀ (o : Opts) (fuel : Nat) (ops : List Op) (cfg : Cfg),
+      runOps (toMachine env c₁) o fuel ops cfg = runOps (toMachine env c₂) o fuel ops cfg) :=
+  have M := Equiv.toMachine env E
+  ⟨fun h t => trigger_congr h M t, fun o fuel op => stepOp_congr M o fuel op,
+   fun o fuel ops cfg => runOps_congr M o fuel ops cfg⟩
+
+/-- **C15 (allowed events).** -/
+theorem C15_allowed {c₁ c₂ : Cls} (E : c₁ ≈ c₂) (s : SDecl) (hs : s ∈ c₁.states) (e : Name) :
+    e ∈ allowed c₁ s.name ↔ e ∈ allowed c₂ s.name := E.allowed s hs e
+
+/-! ## rewrites that hold in every context -/
+
+/-- the elementary style rewrites on transition expressions, (a)–(d) -/
+inductive TRule : TExpr → TExpr → Prop
+  | to_from (a b : Name) (kw : Kw) : TRule (.to a [b] kw) (.from_ b [a] kw)
+  | multi_target (s : Name) (ts₁ ts₂ : List Name) (kw : Kw) :
+      TRule (.to s (ts₁ ++ ts₂) kw) (.or (.to s ts₁ kw) (.to s ts₂ kw))
+  | multi_source (t : Name) (ss₁ ss₂ : List Name) (kw : Kw) :
+      TRule (.from_ t (ss₁ ++ ss₂) kw) (.or (.from_ t ss₁ kw) (.from_ t ss₂ kw))
+  | to_itself (a : Name) (kw : Kw) : TRule (.toItself a kw) (.to a [a] kw)
+  | from_itself (a : Name) (kw : Kw) : TRule (.fromItself a kw) (.from_ a [a] kw)
+  /-- any re-spelling of `event=` that denotes the same de-duplicated id sequence:
+  `"e1 e2"`, `["e1","e2"]`, `[Event("e1"), "e2"]` (`spaced_eq_list`, `str_eq_obj`) -/
+  | event_spelling (e : TExpr) (items : List EvItem) (h : kwEvents e.kwEvent = kwEvents items) :
+      TRule e (e.withEvent items)
+
+theorem TRule.sound {e e' : TExpr} (r : TRule e e') : TExpr.Eqv e e' := by
+  cases r with
+  | to_from a b kw => exact to_eq_from a b kw
+  | multi_target s ts₁ ts₂ kw => exact to_split s ts₁ ts₂ kw
+  | multi_source t ss₁ ss₂ kw => exact from_split t ss₁ ss₂ kw
+  | to_itself a kw => exact toItself_eq a kw
+  | from_itself a kw => exact fromItself_eq a kw
+  | event_spelling e items h => exact Decl.event_spelling e items h
+
+/-- the elementary style rewrites on statements: a `TRule` anywhere inside a statement, and (g) -/
+inductive SRule : List Stmt → List Stmt → Prop
+  | texpr (S : SCtx) {e e' : TExpr} (r : TRule e e') : SRule [S.fill e] [S.fill e']
+  | states_dict (ss : List SDecl) : SRule [.statesDict ss] (ss.map .state)
+  | states_enum (ms : List (Name × Val)) (i : Name) (fs : List Name) :
+      SRule [.statesEnum ms i fs] ((enumStates ms i fs).map .state)
+
+theorem SRule.sound {s s' : List Stmt} (r : SRule s s') : Stmts.Eqv s s' := by
+  cases r with
+  | texpr S r => exact S.congr r.sound
+  | states_dict ss => exact statesDict_eq ss
+  | states_enum ms i fs => exact statesEnum_eq ms i fs
+
+/-- **C15 (a)(b)(c)(d)(g), with full congruence.** A style rewrite applied to any statement(s) of any
+class of an inheritance chain — between arbitrary statements `p`, `q`, below arbitrary base classes
+`pre`, above arbitrary subclasses `post` — does not change the elaborated class at all. -/
+theorem C15_rewrite_anywhere {s s' : List Stmt} (r : SRule s s') (p q : List Stmt)
+    (pre post : List (List Stmt)) :
+    elabProg (pre ++ [p ++ s ++ q] ++ post) = elabProg (pre ++ [p ++ s' ++ q] ++ post) :=
+  elabProg_congr (r.sound.context p q) pre post
+
+/-! ## (f) `from_.any()` -/
+
+/-- **C15 (f), partial.** After any class body `p`, the statement `e = t.from_.any(kw)` and the
+statement `e = t.from_(s₁, …, sₖ, kw)`, `s₁ … sₖ` the non-final states declared in `p` in order,
+declare equivalent classes — provided that
+* every state is declared before the event (here: the statement follows `p`; `D16a`),
+* the event's expression holds no other transition (here: it is exactly the `any()` call; `D16b`),
+* `kw` carries no `event=` (`D16d`) and is not `internal` (`AnyState` is never the target),
+* `e` is not assigned in `p`,
+and the class has no base class that already used `from_.any()` (here: no base class; `D16c`).
+Missing for the full statement (f): statements after the `any()` statement. -/
+theorem C15_any_partial (p : List Stmt) (e t : Name) (kw : Kw)
+    (hev : kw.event = []) (hint : kw.internal = false)
+    (hfresh : e ∉ (elabBody {} p).attrs.map (·.1)) :
+    elabClass {} (p ++ [.assign e (.fromAny t kw)]) ≈
+      elabClass {} (p ++ [.assign e (.from_ t
+        (((declared (elabBody {} p).attrs).filter (!·.final)).map (·.name)) kw)]) :=
+  any_partial p e t kw hev hint hfresh
+
+/-! ## chains of rewrites -/
+
+/-- programs connected by style rewrites -/
+inductive Rewrites : List (List Stmt) → List (List Stmt) → Prop
+  | refl (P : List (List Stmt)) : Rewrites P P
+  | symm {P Q : List (List Stmt)} : Rewrites P Q → Rewrites Q P
+  | trans {P Q R : List (List Stmt)} : Rewrites P Q → Rewrites Q R → Rewrites P R
+  | style {s s' : List Stmt} (r : SRule s s') (p q : List Stmt) (pre post : List (List Stmt)) :
+      Rewrites (pre ++ [p ++ s ++ q] ++ post) (pre ++ [p ++ s' ++ q] ++ post)
+  | any (p : List Stmt) (e t : Name) (kw : Kw) (hev : kw.event = []) (hint : kw.internal = false)
+      (hfresh : e ∉ (elabBody {} p).attrs.map (·.1)) :
+      Rewrites [p ++ [.assign e (.fromAny t kw)]]
+        [p ++ [.assign e (.from_ t (((declared (elabBody {} p).attrs).filter (!·.final)).map (·.name)) kw)]]
+
+/-- **C15 (any two renderings).** Renderings connected by any chain of the proved rewrites declare
+equivalent classes … -/
+theorem C15_any_two {P Q : List (List Stmt)} (h : Rewrites P Q) : elabProg P ≈ elabProg Q := by
+  induction h with
+  | refl P => exact Equiv.refl _
+  | symm _ ih => exact ih.symm
+  | trans _ _ ih1 ih2 => exact ih1.trans ih2
+  | style r p q pre post => rw [C15_rewrite_anywhere r p q pre post]; exact Equiv.refl _
+  | any p e t kw hev hint hfresh => exact any_partial p e t kw hev hint hfresh
+
+/-- … hence behave identically on every history. -/
+theorem C15_any_two_behaviour {P Q : List (List Stmt)} (h : Rewrites P Q) (env : Env) (o : Opts)
+    (fuel : Nat) (ops : List Op) (cfg : Cfg) :
+    runOps (toMachine env (elabProg P)) o fuel ops cfg = runOps (toMachine env (elabProg Q)) o fuel ops cfg :=
+  (C15_behaviour (C15_any_two h) env).2.2 o fuel ops cfg
+
+/-! ## non-vacuity, negation witnesses (finding D16), instances of the unproved rewrites -/
+
+namespace C15ex
+
+def sA : SDecl := { name := 0, initial := true }
+def sB : SDecl := { name := 1, value := some 7, enter := [3] }
+def sZ : SDecl := { name := 2, final := true }
+def nokw : Kw := {}
+def guarded : Kw := { cond := [1], on := [2] }
+/-- event ids -/
+def go : Name := 10
+def stop : Name := 11
+def x : Name := 12
+
+def body : List Stmt := [.state sA, .state sB, .state sZ, .assign go (.to 0 [1] guarded)]
+
+/-- non-vacuity of `C15_any_partial` (and of `C15_behaviour`): the hypotheses hold, the two classes
+are different objects (different stores), and the explicit list is `[s0, s1]` -/
+example : elabClass {} (body ++ [.assign stop (.fromAny 2 guarded)]) ≈
+    elabClass {} (body ++ [.assign stop (.from_ 2 [0, 1] guarded)]) :=
+  C15_any_partial body stop 2 guarded rfl rfl (by decide)
+
+example : elabClass {} (body ++ [.assign stop (.fromAny 2 guarded)]) ≠
+    elabClass {} (body ++ [.assign stop (.from_ 2 [0, 1] guarded)]) := by decide
+
+example : cands (elabClass {} (body ++ [.assign stop (.fromAny 2 guarded)])) 1 stop =
+    [⟨2, false, [], [(1, true)], [], [2], []⟩] := by decide
+
+/-- non-vacuity of `C15_rewrite_anywhere`: a multi-target call under `|` inside a decorator, in a
+subclass -/
+example : elabProg [body, [.decorated (.or (.to 1 [0, 2] nokw) (.ref go)) x 5]] =
+    elabProg [body, [.decorated (.or (.or (.to 1 [0] nokw) (.to 1 [2] nokw)) (.ref go)) x 5]] :=
+  C15_rewrite_anywhere (.texpr (.decorated (.orL .hole (.ref go)) x 5) (.multi_target 1 [0] [2] nokw))
+    [] [] [body] []
+
+/-- non-vacuity of the `event=` rule: `"go x"` ↔ `[Event("go"), "x"]` -/
+example : TRule (.to 0 [1] { nokw with event := [.str [go, x]] })
+    (.to 0 [1] { nokw with event := [.obj go, .str [x]] }) :=
+  .event_spelling (.to 0 [1] { nokw with event := [.str [go, x]] }) [.obj go, .str [x]] rfl
+
+/-! ### D16: the excluded shapes are genuinely different (as-is behaviour of the code) -/
+
+/-- D16a: a state declared after the event gets no `any()` transition -/
+theorem D16a_state_declared_later :
+    ¬ (elabClass {} [.state sA, .state sZ, .assign stop (.fromAny 2 nokw), .state sB, .assign go (.to 0 [1] nokw)] ≈
+       elabClass {} [.state sA, .state sZ, .assign stop (.from_ 2 [0, 1] nokw), .state sB, .assign go (.to 0 [1] nokw)]) := by
+  intro h
+  have := h.cands sB (by decide) stop
+  revert this
+  decide
+
+/-- D16b: the expansions are ordered after explicit transitions of the same event -/
+theorem D16b_ordered_after_explicit :
+    ¬ (elabClass {} (body ++ [.assign stop (.or (.fromAny 2 guarded) (.to 0 [1] nokw))]) ≈
+       elabClass {} (body ++ [.assign stop (.or (.from_ 2 [0, 1] guarded) (.to 0 [1] nokw))])) := by
+  intro h
+  have := h.cands sA (by decide) stop
+  revert this
+  decide
+
+/-- D16c: a subclass expands the base's `any()` again (duplicates) -/
+theorem D16c_duplicated_by_subclass :
+    ¬ (elabProg [body ++ [.assign stop (.fromAny 2 guarded)], [.assign x (.to 1 [0] nokw)]] ≈
+       elabProg [body ++ [.assign stop (.fromAny 2 guarded)] ++ [.assign x (.to 1 [0] nokw)]]) := by
+  intro h
+  have := h.cands sA (by decide) stop
+  revert this
+  decide
+
+/-- D16d: `event=` given to `any()` is dropped -/
+theorem D16d_event_kw_dropped :
+    ¬ (elabClass {} (body ++ [.assign stop (.fromAny 2 { nokw with event := [.str [x]] })]) ≈
+       elabClass {} (body ++ [.assign stop (.from_ 2 [0, 1] { nokw with event := [.str [x]] })])) := by
+  intro h
+  have := (h.events x).mpr (by decide)
+  revert this
+  decide
+
+/-! ### instances of the rewrites that are not proved in general (checked by evaluation) -/
+
+/-- (d') one list assigned to two attributes ↔ `event="stop x"` on a statement-only transition -/
+theorem shared_list_instance :
+    elabClass {} (body ++ [.assign stop (.to 1 [2] guarded), .assign x (.ref stop)]) ≈
+    elabClass {} (body ++ [.bare (.to 1 [2] { guarded with event := [.str [stop, x]] })]) :=
+  equivB_sound (by decide)
+
+/-- (e) `stop = T` ↔ `stop = Event(T, name=…)` ↔ placeholder `stop = Event(name=…)` + `event=stop`
+↔ `@T def stop(self): cb2` with `on` callback 2 -/
+theorem explicit_event_instance :
+    elabClass {} (body ++ [.assign stop (.to 1 [2] guarded)]) ≈
+    elabClass {} (body ++ [.eventOf stop (.to 1 [2] guarded)]) := equivB_sound (by decide)
+
+theorem placeholder_instance :
+    elabClass {} (body ++ [.assign stop (.to 1 [2] guarded)]) ≈
+    elabClass {} ([.placeholder stop] ++ body ++ [.bare (.to 1 [2] { guarded with event := [.ph stop] })]) :=
+  equivB_sound (by decide)
+
+theorem decorator_instance :
+    elabClass {} (body ++ [.assign stop (.to 1 [2] guarded)]) ≈
+    elabClass {} (body ++ [.decorated (.to 1 [2] { guarded with on := [] }) stop 2]) :=
+  equivB_sound (by decide)
+
+/-- (h) base class + subclass ↔ one flat class (no `any()` in the base) -/
+theorem inheritance_instance :
+    elabProg [body, [.state { name := 3 }, .assign stop (.or (.to 1 [3] nokw) (.from_ 2 [3] guarded))]] ≈
+    elabProg [body ++ [.state { name := 3 }, .assign stop (.or (.to 1 [3] nokw) (.from_ 2 [3] guarded))]] :=
+  equivB_sound (by decide)
+
+/-- non-vacuity of `C15_behaviour`'s conclusion on an instance: sending `stop` in `s1` with a true guard
+moves both renderings to `s2` -/
+example : let env : Env := { behav := fun _ _ _ => { ret := 1 }, truthy := fun v => v == 1 }
+    let m := toMachine env (elabClass {} (body ++ [.assign stop (.fromAny 2 guarded)]))
+    (runOps m {} 10 [.construct, .send go, .send stop] {}).cur = some (valOf sZ) := by decide
+
+end C15ex
 end SMV
